@@ -595,3 +595,18 @@ def mon_gone_cwd_link(rr):
     if norm(rr.impl[li + 5]) != "ok symlink":
         out.append(Failure("copied_instead_of_linked", li + 5, f"the content path is {norm(rr.impl[li + 5])[:30]}, not a symbolic link", sig=sig))
     return out
+
+
+def skeleton_sample():
+    """Programs of the round-9 families whose every operation is compared, system call by system call, with the model's
+    call trace (`leg_skeleton`): held writers, commits from another directory, dangling-link removals, symlinked
+    buckets, hash-less declarations, records without a size, missing content.  (Not: reflink extractions - the
+    `reflink-copy` crate probes with a create + unlink of its own -, and `link_to_gone`, whose mkdir / rmdir are the
+    harness' own.)"""
+    from . import props as P
+    held = [p for p in gen_held_writer_programs() if p.name.endswith("-fed")][::3][:10]
+    cd = [p for p in gen_cd_commit_programs() if "big" not in p.name][:6]
+    unsized = [p for p in P.gen_unsized_record_programs() if "reflink" not in p.name][::2][:4]
+    missing = [p for p in P.gen_missing_content_programs() if "reflink" not in p.name][::3][:6]
+    return (held + cd + gen_dangling_link_removal_programs() + gen_linked_bucket_programs() +
+            gen_empty_declaration_programs()[::4][:5] + unsized + missing)
